@@ -101,6 +101,8 @@ def run(cmd, cwd=None, env=None, timeout=1800, check=True, capture=True, mem_gb=
 def build_harness(bins, release=False):
     """Build the given harness binaries against /repo's current working tree. Returns bin dir."""
     ensure_dirs()
+    if os.path.realpath(REPO) != "/repo":
+        return _build_harness_alt(bins, release)
     with Lock("cargo"):
         lock_src = os.path.join(REPO, "Cargo.lock")
         lock_dst = os.path.join(HARNESS, "Cargo.lock")
@@ -121,6 +123,32 @@ def build_harness(bins, release=False):
         if p.returncode != 0:
             raise Broken("harness build failed:\n" + p.stdout[-6000:])
     return os.path.join(BUILD, "target", "release" if release else "debug")
+
+
+def _build_harness_alt(bins, release):
+    """VERIF_REPO points at another checkout (seeded-change runs in a scratch worktree): build a copy
+    of the harness whose path dependency is that checkout, in its own target directory."""
+    alt = os.path.join(BUILD, "harness-alt")
+    with Lock("cargo-alt"):
+        if os.path.exists(alt):
+            shutil.rmtree(alt)
+        shutil.copytree(HARNESS, alt, ignore=shutil.ignore_patterns("target", "bshim", "bind"))
+        for root, _, files in os.walk(alt):
+            for fn in files:
+                if fn == "Cargo.toml":
+                    pth = os.path.join(root, fn)
+                    t = open(pth).read().replace('path = "/repo"', 'path = "%s"' % os.path.realpath(REPO))
+                    open(pth, "w").write(t)
+        shutil.copyfile(os.path.join(REPO, "Cargo.lock"), os.path.join(alt, "Cargo.lock"))
+        cmd = ["cargo", "build", "--offline"] + (["--release"] if release else [])
+        for b in bins:
+            cmd += ["--bin", b]
+        env = {"CARGO_NET_OFFLINE": "true", "RUSTFLAGS": "--cfg %s -Awarnings" % GUARD,
+               "CARGO_TARGET_DIR": os.path.join(BUILD, "target-alt")}
+        p = run(cmd, cwd=alt, env=env, timeout=1500, check=False)
+        if p.returncode != 0:
+            raise Broken("harness build failed:\n" + p.stdout[-6000:])
+    return os.path.join(BUILD, "target-alt", "release" if release else "debug")
 
 
 # --------------------------------------------------------------------------
@@ -411,7 +439,9 @@ class Report:
             print("KNOWN-FINDING: property=%s %s" % (self.pid, what))
         rc = 0
         for i, (what, replay, found) in enumerate(self.violations[:5]):
-            rp = os.path.join(REPLAYS, "%s-%s-%d-%d.json" % (self.pid, self.tier, self.seed, i))
+            rp = os.path.join(os.environ.get("VERIF_REPLAY_DIR") or REPLAYS,
+                              "%s-%s-%d-%d.json" % (self.pid, self.tier, self.seed, i))
+            os.makedirs(os.path.dirname(rp), exist_ok=True)
             with open(rp, "w") as f:
                 json.dump({"property": self.pid, "what": what, "replay": replay,
                            "failing_input_found": found}, f, indent=1)
@@ -422,7 +452,9 @@ class Report:
         ev = {"property_id": self.pid, "tier": self.tier, "seed": self.seed, "level": self.level,
               "coverage": self.coverage, "assumptions": self.assumptions, "wall_s": round(wall, 2),
               "violations": len(self.violations)}
-        with open(os.path.join(VERIF, "evidence", "%s.json" % self.pid), "w") as f:
+        evdir = os.environ.get("VERIF_EVIDENCE_DIR") or os.path.join(VERIF, "evidence")
+        os.makedirs(evdir, exist_ok=True)
+        with open(os.path.join(evdir, "%s.json" % self.pid), "w") as f:
             json.dump(ev, f, indent=1, ensure_ascii=False)
         sys.stdout.flush()
         return rc
